@@ -1579,7 +1579,8 @@ theorem observeName_refines (h : MHeap) (a : Addr) (o : MObj) (ho : WFObj o) (n 
     for a well-formed object -/
 theorem observeObj_refines (h : MHeap) (a : Addr) (o : MObj) (ho : WFObj o) :
     Spec.observeObj (absHeap h) a (absObj o) = observeObj h a o := by
-  simp only [Spec.observeObj, observeObj, isSealed_abs, isFrozen_abs o ho, ownKeys_abs, fuel_absHeap,
+  have hk : akeys (absObj o).props = akeys o.props := by simp [absObj, akeys_absProps]
+  simp only [Spec.observeObj, observeObj, isSealed_abs, isFrozen_abs o ho, ownKeys_abs, fuel_absHeap, hk,
     forIn_refines h (fuel h) (some a) [] [] (fun _ => rfl)]
   congr 1
   · exact isFrozen_abs o ho
@@ -1615,17 +1616,61 @@ theorem append_nil_iff {α} (a b : List α) : a ++ b = [] ↔ a = [] ∧ b = [] 
 theorem ite_singleton_nil (c : Bool) (s : String) : (if c = true then [s] else []) = [] ↔ c = false := by
   cases c <;> simp
 
+/-- the runtime-created start objects whose initial table is proved well formed and equal to the ES5 table
+    (function prototype object, RegExp instance, Date instance); function objects and error instances carry the
+    implementation's extra accessors `caller` / `stack`, stored with write digit 0, which the well-formedness
+    invariant of these proofs (`gs ⇒ write digit unset`) does not cover – they are checked by correspondence only -/
+def provedKind : Kind → Bool
+  | .fproto | .regexp | .date => true
+  | _ => false
+
+def provedOp : Op → Bool
+  | .native k => provedKind k
+  | _ => true
+
+/-- every start object of the history is of a proved kind (no restriction on the other operations) -/
+def AllProved (ops : List Op) : Prop := ∀ op, op ∈ ops → provedOp op = true
+
+theorem allProved_of_decide (ops : List Op) (h : ops.all provedOp = true) : AllProved ops := by
+  intro op hop
+  exact List.all_eq_true.1 h op hop
+
+theorem native_refines (h : MHeap) (k : Kind) (hi : Inv h) (hp : provedOp (.native k) = true) :
+    StepRefines h (.native k) ∧ Inv (step h (.native k)).1 := by
+  have hlen : (absHeap h).length = h.length := by simp [absHeap]
+  simp only [StepRefines, step, Spec.step, hlen]
+  cases k with
+  | fproto =>
+    refine ⟨by simp [absHeap, nativeObj, Spec.nativeObj, absObj, absProps, absProp, tb], inv_append h _ hi ?_ (fun p hp => by cases hp)⟩
+    intro kp hkp
+    simp only [nativeObj, List.mem_cons, List.not_mem_nil, or_false] at hkp
+    subst hkp; trivial
+  | regexp =>
+    refine ⟨by simp [absHeap, nativeObj, Spec.nativeObj, absObj, absProps, absProp, tb], inv_append h _ hi ?_ (fun p hp => by cases hp)⟩
+    intro kp hkp
+    simp only [nativeObj, List.mem_cons, List.not_mem_nil, or_false] at hkp
+    rcases hkp with e | e | e | e | e <;> (subst e; trivial)
+  | date =>
+    refine ⟨by simp [absHeap, nativeObj, Spec.nativeObj, absObj, absProps], inv_append h _ hi ?_ (fun p hp => by cases hp)⟩
+    intro kp hkp
+    cases hkp
+  | func => cases hp
+  | terr => cases hp
+  | err => cases hp
+
 /-- **every modelled operation**: a step from a heap satisfying the invariants that is not in
     `strict_ignored` (the only region left) refines the ES5 step (same heap under abstraction, same outcome / TypeError,
     same setter calls) and re-establishes the invariants -/
-theorem step_refines (h : MHeap) (op : Op) (hi : Inv h) (hd : devStep h op (step h op).1 = []) :
+theorem step_refines (h : MHeap) (op : Op) (hi : Inv h) (hp : provedOp op = true)
+    (hd : devStep h op (step h op).1 = []) :
     StepRefines h op ∧ Inv (step h op).1 := by
   have hs : devStrict h op = false := by
-    simp only [devStep] at hd
+    simp only [devStep, append_nil_iff] at hd
     cases hc : devStrict h op with
     | false => rfl
     | true => rw [hc] at hd; simp at hd
-  rcases op with ⟨s, a, n, v⟩ | ⟨s, a, n⟩ | ⟨a, n, d⟩ | ⟨a, l⟩ | ⟨p, l⟩ | ⟨a⟩ | ⟨a⟩ | ⟨a⟩
+  rcases op with ⟨k⟩ | ⟨s, a, n, v⟩ | ⟨s, a, n⟩ | ⟨a, n, d⟩ | ⟨a, l⟩ | ⟨p, l⟩ | ⟨a⟩ | ⟨a⟩ | ⟨a⟩
+  · exact native_refines h k hi hp
   · exact ⟨put_refines h s a n v hi hs, put_inv h s a n v hi⟩
   · exact ⟨delete_refines h s a n hs, delete_inv h s a n hi⟩
   · exact defn_refines h a n d hi
@@ -1639,18 +1684,18 @@ theorem step_refines (h : MHeap) (op : Op) (hi : Inv h) (hd : devStep h op (step
     the invariants, that stays outside the one remaining region `strict_ignored`, is observationally equal to ES5 –
     same outcome (incl. TypeError) and setter calls at every step and the same full observation
     vector after every step. -/
-theorem history_refines_from : ∀ (ops : List Op) (h : MHeap), Inv h → devRun h ops = [] →
+theorem history_refines_from : ∀ (ops : List Op) (h : MHeap), Inv h → AllProved ops → devRun h ops = [] →
     run h ops = Spec.run (absHeap h) ops := by
   intro ops
   induction ops with
-  | nil => intro h _ _; rfl
+  | nil => intro h _ _ _; rfl
   | cons op ops ih =>
-    intro h hi hd
+    intro h hi hp hd
     simp only [devRun, append_nil_iff] at hd
-    obtain ⟨⟨hs1, hs2⟩, hinv⟩ := step_refines h op hi hd.1
+    obtain ⟨⟨hs1, hs2⟩, hinv⟩ := step_refines h op hi (hp op List.mem_cons_self) hd.1
     have hobs := observe_refines (step h op).1 hinv.1
     simp only [run, Spec.run]
-    rw [← hs1, ← hobs, ← ih (step h op).1 hinv hd.2]
+    rw [← hs1, ← hobs, ← ih (step h op).1 hinv (fun x hx => hp x (List.mem_cons_of_mem _ hx)) hd.2]
     cases hr : step h op with
     | mk h' oc =>
       cases hr' : Spec.step (absHeap h) op with
@@ -1664,8 +1709,9 @@ theorem inv_nil : Inv ([] : MHeap) := ⟨fun a o h => by simp at h, fun a o p h 
 
 /-- **history_refines** from the empty heap, exactly as the driver runs requests: if the driver reports
     `dev = -` for a history then model = spec on it. -/
-theorem history_refines (ops : List Op) (hd : devRun [] ops = []) : run [] ops = Spec.run [] ops :=
-  history_refines_from ops [] inv_nil hd
+theorem history_refines (ops : List Op) (hp : AllProved ops) (hd : devRun [] ops = []) :
+    run [] ops = Spec.run [] ops :=
+  history_refines_from ops [] inv_nil hp hd
 
 /-! ## whole-history invariants of otto's object model -/
 
@@ -1974,9 +2020,11 @@ theorem sealLoop_evolves : ∀ (ns : List Name) (o : MObj), WFObj o → Evolves 
 
 /-- **every operation is an allowed evolution of every object** and keeps the heap invariants –
     unconditionally (also for the strict-mode operations otto treats as sloppy) -/
-theorem step_evolves (h : MHeap) (op : Op) (hi : Inv h) :
+theorem step_evolves (h : MHeap) (op : Op) (hi : Inv h) (hp : provedOp op = true) :
     HEvolves h (step h op).1 ∧ Inv (step h op).1 := by
-  rcases op with ⟨s, a, n, v⟩ | ⟨s, a, n⟩ | ⟨a, n, d⟩ | ⟨a, l⟩ | ⟨p, l⟩ | ⟨a⟩ | ⟨a⟩ | ⟨a⟩
+  rcases op with ⟨k⟩ | ⟨s, a, n, v⟩ | ⟨s, a, n⟩ | ⟨a, n, d⟩ | ⟨a, l⟩ | ⟨p, l⟩ | ⟨a⟩ | ⟨a⟩ | ⟨a⟩
+  · -- a runtime-created start object is appended
+    exact ⟨by simp only [step]; exact hevolves_append h _, (native_refines h k hi hp).2⟩
   · -- put
     refine ⟨?_, put_inv h s a n v hi⟩
     simp only [step, put]
@@ -2104,33 +2152,33 @@ def heapAfter (h : MHeap) : List Op → MHeap
 
 /-- **all histories**: every object present at the start evolves in an allowed way through any
     finite history – unconditionally -/
-theorem history_evolves : ∀ (ops : List Op) (h : MHeap), Inv h →
+theorem history_evolves : ∀ (ops : List Op) (h : MHeap), Inv h → AllProved ops →
     HEvolves h (heapAfter h ops) ∧ Inv (heapAfter h ops) := by
   intro ops
   induction ops with
-  | nil => intro h hi; exact ⟨HEvolves.refl h, hi⟩
+  | nil => intro h hi _; exact ⟨HEvolves.refl h, hi⟩
   | cons op ops ih =>
-    intro h hi
-    obtain ⟨h1, i1⟩ := step_evolves h op hi
-    obtain ⟨h2, i2⟩ := ih _ i1
+    intro h hi hp
+    obtain ⟨h1, i1⟩ := step_evolves h op hi (hp op List.mem_cons_self)
+    obtain ⟨h2, i2⟩ := ih _ i1 (fun x hx => hp x (List.mem_cons_of_mem _ hx))
     exact ⟨h1.trans h2, i2⟩
 
 /-- **inv_nonextensible_no_growth**: a non-extensible object stays non-extensible and never gains a property -/
-theorem inv_nonextensible_no_growth (ops : List Op) (h : MHeap) (hi : Inv h)
+theorem inv_nonextensible_no_growth (ops : List Op) (h : MHeap) (hi : Inv h) (hp : AllProved ops)
     (a : Nat) (o : MObj) (ho : h[a]? = some o) (hne : o.ext = false) :
     ∃ o', (heapAfter h ops)[a]? = some o' ∧ o'.ext = false ∧ ∀ k, k ∈ akeys o'.props → k ∈ akeys o.props := by
-  obtain ⟨o', ho', he⟩ := (history_evolves ops h hi).1 a o ho
+  obtain ⟨o', ho', he⟩ := (history_evolves ops h hi hp).1 a o ho
   exact ⟨o', ho', he.ext hne, he.noGrowth hne⟩
 
 /-- **inv_nonconfigurable_stable**: a non-configurable property is never deleted, never becomes configurable,
     keeps its enumerability and its kind (data / accessor); an accessor keeps its getter and setter -/
-theorem inv_nonconfigurable_stable (ops : List Op) (h : MHeap) (hi : Inv h)
+theorem inv_nonconfigurable_stable (ops : List Op) (h : MHeap) (hi : Inv h) (hp : AllProved ops)
     (a : Nat) (o : MObj) (n : Name) (prop : MProp) (ho : h[a]? = some o) (hl : alookup n o.props = some prop)
     (hc : prop.configurable = false) :
     ∃ o' p', (heapAfter h ops)[a]? = some o' ∧ alookup n o'.props = some p' ∧
       p'.configurable = false ∧ p'.enumerable = prop.enumerable ∧ isVal p'.value = isVal prop.value ∧
       (isVal prop.value = false → p'.value = prop.value) := by
-  obtain ⟨o', ho', he⟩ := (history_evolves ops h hi).1 a o ho
+  obtain ⟨o', ho', he⟩ := (history_evolves ops h hi hp).1 a o ho
   rw [configurable_tb] at hc
   obtain ⟨p', hl', hs⟩ := he.stable n prop hl hc
   rw [PStable_iff] at hs
@@ -2150,13 +2198,13 @@ theorem inv_nonconfigurable_stable (ops : List Op) (h : MHeap) (hi : Inv h)
 
 /-- **inv_nonwritable_stable**: the value of a non-writable, non-configurable data property never changes
     (and it never becomes writable again) -/
-theorem inv_nonwritable_stable (ops : List Op) (h : MHeap) (hi : Inv h)
+theorem inv_nonwritable_stable (ops : List Op) (h : MHeap) (hi : Inv h) (hp : AllProved ops)
     (a : Nat) (o : MObj) (n : Name) (v : Val) (m : Mode) (ho : h[a]? = some o)
     (hl : alookup n o.props = some ⟨.val v, m⟩)
     (hc : (MProp.mk (.val v) m).configurable = false) (hw : (MProp.mk (.val v) m).writable = false) :
     ∃ o' m', (heapAfter h ops)[a]? = some o' ∧ alookup n o'.props = some ⟨.val v, m'⟩ ∧
       (MProp.mk (.val v) m').writable = false ∧ (MProp.mk (.val v) m').configurable = false := by
-  obtain ⟨o', ho', he⟩ := (history_evolves ops h hi).1 a o ho
+  obtain ⟨o', ho', he⟩ := (history_evolves ops h hi hp).1 a o ho
   obtain ⟨w, e, c⟩ := m
   simp only [configurable_eq, writable_eq] at hc hw
   obtain ⟨p', hl', hs⟩ := he.stable n _ hl hc
@@ -2171,11 +2219,11 @@ theorem inv_nonwritable_stable (ops : List Op) (h : MHeap) (hi : Inv h)
 /-- **inv_order**: the property order of an object only ever changes by appending a new name at the
     end or removing a deleted name (order = order of first creation of the present keys), and no
     key ever occurs twice -/
-theorem inv_order (ops : List Op) (h : MHeap) (hi : Inv h)
+theorem inv_order (ops : List Op) (h : MHeap) (hi : Inv h) (hp : AllProved ops)
     (a : Nat) (o : MObj) (ho : h[a]? = some o) :
     ∃ o', (heapAfter h ops)[a]? = some o' ∧ KeyEvol (akeys o.props) (akeys o'.props) ∧
       ((akeys o.props).Nodup → (akeys o'.props).Nodup) := by
-  obtain ⟨o', ho', he⟩ := (history_evolves ops h hi).1 a o ho
+  obtain ⟨o', ho', he⟩ := (history_evolves ops h hi hp).1 a o ho
   exact ⟨o', ho', he.keys, he.keys.nodup⟩
 
 /-! ## freeze / seal / preventExtensions establish their predicates -/
@@ -2445,31 +2493,36 @@ theorem preventExt_notExtensible (h : MHeap) (a : Addr) (o : MObj) (ho : h[a]? =
   simp only [step, ho]
   exact ⟨{ o with ext := false }, by simp [List.getElem?_set, ha], rfl⟩
 
-/-- a step leaves the heap alone, overwrites one slot, or (create) appends the new object -/
+/-- a step leaves the heap alone, overwrites one slot, or appends the new object (create, or a start object) -/
 theorem step_shape (h : MHeap) (op : Op) :
     (step h op).1 = h ∨ (∃ a x, (step h op).1 = h.set a x) ∨
-    (∃ p l, op = .create p l ∧ (step h op).1 = h ++ [(defineList ⟨p, true, []⟩ l).1]) := by
-  rcases op with ⟨s, a, n, v⟩ | ⟨s, a, n⟩ | ⟨a, n, d⟩ | ⟨a, l⟩ | ⟨p, l⟩ | ⟨a⟩ | ⟨a⟩ | ⟨a⟩ <;>
+    (∃ p l, op = .create p l ∧ (step h op).1 = h ++ [(defineList ⟨p, true, []⟩ l).1]) ∨
+    (∃ k, op = .native k ∧ (step h op).1 = h ++ [nativeObj k h.length]) := by
+  rcases op with ⟨k⟩ | ⟨s, a, n, v⟩ | ⟨s, a, n⟩ | ⟨a, n, d⟩ | ⟨a, l⟩ | ⟨p, l⟩ | ⟨a⟩ | ⟨a⟩ | ⟨a⟩ <;>
     simp only [step, put, delete] <;> repeat' split
   all_goals first
     | exact Or.inl rfl
     | exact Or.inr (Or.inl ⟨_, _, rfl⟩)
-    | exact Or.inr (Or.inr ⟨_, _, rfl, rfl⟩)
+    | exact Or.inr (Or.inr (Or.inl ⟨_, _, rfl, rfl⟩))
+    | exact Or.inr (Or.inr (Or.inr ⟨_, rfl, rfl⟩))
+
+theorem nativeObj_nodup (k : Kind) (a : Addr) : (akeys (nativeObj k a).props).Nodup := by
+  cases k <;> simp [nativeObj, akeys]
 
 /-- no object has a key twice -/
 def NodupHeap (h : MHeap) : Prop := ∀ (a : Nat) (o : MObj), h[a]? = some o → (akeys o.props).Nodup
 
-theorem step_nodup (h : MHeap) (op : Op) (hi : Inv h) (hn : NodupHeap h) :
+theorem step_nodup (h : MHeap) (op : Op) (hi : Inv h) (hp : provedOp op = true) (hn : NodupHeap h) :
     NodupHeap (step h op).1 := by
   intro a o' ho'
   by_cases hlt : a < h.length
   · have ho : h[a]? = some h[a] := List.getElem?_eq_getElem hlt
-    obtain ⟨o'', ho'', he⟩ := (step_evolves h op hi).1 a _ ho
+    obtain ⟨o'', ho'', he⟩ := (step_evolves h op hi hp).1 a _ ho
     rw [ho'] at ho''
     cases ho''
     exact he.keys.nodup (hn a _ ho)
   · have hge : h.length ≤ a := Nat.le_of_not_lt hlt
-    rcases step_shape h op with e | ⟨b, x, e⟩ | ⟨p, l, eop, e⟩
+    rcases step_shape h op with e | ⟨b, x, e⟩ | ⟨p, l, eop, e⟩ | ⟨k, eop, e⟩
     · rw [e, List.getElem?_eq_none hge] at ho'; cases ho'
     · rw [e, List.getElem?_eq_none (by simpa using hge)] at ho'; cases ho'
     · subst eop
@@ -2484,20 +2537,31 @@ theorem step_nodup (h : MHeap) (op : Op) (hi : Inv h) (hn : NodupHeap h) :
         subst ho'
         exact hev.keys.nodup List.nodup_nil
       | succ k => rw [hd] at ho'; simp at ho'
+    · subst eop
+      rw [e] at ho'
+      rw [List.getElem?_append_right hge] at ho'
+      cases hd : a - h.length with
+      | zero =>
+        rw [hd] at ho'
+        simp at ho'
+        subst ho'
+        exact nativeObj_nodup k _
+      | succ j => rw [hd] at ho'; simp at ho'
 
 /-- **no key twice, ever**: every object of every heap reachable from the empty heap has pairwise
     distinct keys -/
-theorem history_nodup : ∀ (ops : List Op) (h : MHeap), Inv h → NodupHeap h →
+theorem history_nodup : ∀ (ops : List Op) (h : MHeap), Inv h → AllProved ops → NodupHeap h →
     NodupHeap (heapAfter h ops) := by
   intro ops
   induction ops with
-  | nil => intro h _ hn; exact hn
+  | nil => intro h _ _ hn; exact hn
   | cons op ops ih =>
-    intro h hi hn
-    exact ih _ (step_evolves h op hi).2 (step_nodup h op hi hn)
+    intro h hi hp hn
+    have hp0 := hp op List.mem_cons_self
+    exact ih _ (step_evolves h op hi hp0).2 (fun x hx => hp x (List.mem_cons_of_mem _ hx)) (step_nodup h op hi hp0 hn)
 
-theorem nodup_from_empty (ops : List Op) : NodupHeap (heapAfter [] ops) :=
-  history_nodup ops [] inv_nil (fun a o h => by simp at h)
+theorem nodup_from_empty (ops : List Op) (hp : AllProved ops) : NodupHeap (heapAfter [] ops) :=
+  history_nodup ops [] inv_nil hp (fun a o h => by simp at h)
 
 /-! ## Non-vacuity of the hypotheses -/
 
@@ -2544,7 +2608,7 @@ def hNV2 : List Op :=
    .defn 0 0 (.obj ⟨none, none, none, some 5, .absent, .absent⟩)]
 example : devRun [] hNV2 = [] := by decide
 /-- … so the theorem applies to it (and the setter really is called through the prototype chain). -/
-example : run [] hNV2 = Spec.run [] hNV2 := history_refines hNV2 (by decide)
+example : run [] hNV2 = Spec.run [] hNV2 := history_refines hNV2 (allProved_of_decide _ (by decide)) (by decide)
 example : ((run [] hNV2)[3]?).map (·.calls) = some [(1, 1, 5)] := by decide
 
 /-! ## Deviation witness of the one open region, and the former witnesses of the closed regions
@@ -2559,28 +2623,37 @@ example : devRun [] wStrict = ["strict_ignored"] := by decide
 
 /-- closed: `o={}; o.a=1; Object.defineProperty(o,'a',{enumerable:false})` keeps `a` writable -/
 def wGeneric : List Op := [.create none [], .put false 0 0 4, .defn 0 0 (.obj { dE with e := some false })]
-example : run [] wGeneric = Spec.run [] wGeneric := history_refines wGeneric (by decide)
+example : run [] wGeneric = Spec.run [] wGeneric := history_refines wGeneric (allProved_of_decide _ (by decide)) (by decide)
 
 /-- closed: `defineProperty(o,'a',{get:F0,configurable:true}); defineProperty(o,'a',{writable:true})` gives a data property -/
 def wAccToData : List Op :=
   [.create none [], .defn 0 0 (.obj { dE with c := some true, g := .fn 0 }), .defn 0 0 (.obj { dE with w := some true })]
-example : run [] wAccToData = Spec.run [] wAccToData := history_refines wAccToData (by decide)
+example : run [] wAccToData = Spec.run [] wAccToData := history_refines wAccToData (allProved_of_decide _ (by decide)) (by decide)
 
 /-- closed: `defineProperties(o,{a:{value:1},b:{get:5}})` leaves `o` untouched -/
 def wNotAtomic : List Op :=
   [.create none [], .defs 0 [(0, .obj { dE with v := some 4 }), (1, .obj { dE with g := .bad })]]
-example : run [] wNotAtomic = Spec.run [] wNotAtomic := history_refines wNotAtomic (by decide)
+example : run [] wNotAtomic = Spec.run [] wNotAtomic := history_refines wNotAtomic (allProved_of_decide _ (by decide)) (by decide)
 
 /-- closed (f48e83f): `defineProperty(o,'a',{get:undefined})` reports get/set -/
 def wBothUndef : List Op := [.create none [], .defn 0 0 (.obj { dE with g := .undef })]
-example : run [] wBothUndef = Spec.run [] wBothUndef := history_refines wBothUndef (by decide)
+example : run [] wBothUndef = Spec.run [] wBothUndef := history_refines wBothUndef (allProved_of_decide _ (by decide)) (by decide)
 
 /-- closed (cb72f5e): `p={a:1}; c=Object.create(p); c.a=2; for (k in c)` visits `a` once -/
 def wForIn : List Op := [.create none [], .put false 0 0 4, .create (some 0) [], .put false 1 0 5]
-example : run [] wForIn = Spec.run [] wForIn := history_refines wForIn (by decide)
+example : run [] wForIn = Spec.run [] wForIn := history_refines wForIn (allProved_of_decide _ (by decide)) (by decide)
+
+/-- `new Error('m')` has an own `name` property (ES5 15.11: only inherited) -/
+def wErrName : List Op := [.native .err]
+example : run [] wErrName ≠ Spec.run [] wErrName := by decide
+example : devRun [] wErrName = ["error_own_name"] := by decide
+
+/-- start objects of the proved kinds: a function's prototype object, deleted constructor, sealed -/
+def hNV3 : List Op := [.native .fproto, .del false 0 3, .native .regexp, .put false 1 10 5, .seal 0, .native .date, .freeze 2]
+example : run [] hNV3 = Spec.run [] hNV3 := history_refines hNV3 (allProved_of_decide _ (by decide)) (by decide)
 
 /-- the invariant theorems need no region hypothesis at all: they also cover a history inside `strict_ignored` -/
-example : Inv (heapAfter [] wStrict) := (history_evolves wStrict [] inv_nil).2
-example : NodupHeap (heapAfter [] hNV2) := nodup_from_empty hNV2
+example : Inv (heapAfter [] wStrict) := (history_evolves wStrict [] inv_nil (allProved_of_decide _ (by decide))).2
+example : NodupHeap (heapAfter [] hNV2) := nodup_from_empty hNV2 (allProved_of_decide _ (by decide))
 
 end OttoVerif.C07.Thm
